@@ -91,6 +91,16 @@ static int64_t make_deadline (int kind, int salt) {
 	return (d);
 }
 static nsync_time dl_time (int64_t d) { return (d == DL_NO ? nsync_time_no_deadline : ns_to_time (d)); }
+/* The C++ build also offers every timed entry point with a std::chrono time_point deadline (inline overloads in
+   public/nsync_time_internal.h).  In the cpp11 flavour a bit of the operation's salt byte decides whether a finite
+   deadline goes through that overload (nsync_time_no_deadline has no time_point: it would overflow int64 ns).  */
+#if defined(__cplusplus) && defined(NSYNC_USE_CPP11_TIMEPOINT)
+#define WITH_DEADLINE(dl_, salt_, call_dl_, call_tp_) (((dl_) != DL_NO && ((((unsigned) (salt_)) >> 6) & 1)) ? (call_tp_) : (call_dl_))
+#define DL_TP(dl_) (nsync_to_time_point_ (ns_to_time (dl_)))
+#else
+#define WITH_DEADLINE(dl_, salt_, call_dl_, call_tp_) (call_dl_)
+#define DL_TP(dl_) (dl_time (dl_))
+#endif
 static const char *dl_name (int k) { static const char *n[] = { "none", "past", "soon", "later" }; return (n[k & 3]); }
 
 #include "fam_mon.inc"
